@@ -456,7 +456,7 @@ class FakeFS(object):
         if path not in self.files:
             raise FileNotFoundError(2, 'No such file or directory', path)
         fd = next(self.nfd)
-        self.fds[fd] = path
+        self.fds[fd] = self.files[path]      # open fds survive unlink/rename
         return fd
 
     def close(self, fd):
@@ -467,15 +467,12 @@ class FakeFS(object):
         path = '%s/tmp%04d' % (dir or '/tmp', next(self.ntmp))
         self.files[path] = bytearray()
         fd = next(self.nfd)
-        self.fds[fd] = path
+        self.fds[fd] = self.files[path]
         return fd, path
 
     def rename(self, src, dst):
         self.effect('rename %s' % dst)
         self.files[dst] = self.files.pop(src)
-        for fd, p in list(self.fds.items()):
-            if p == src:
-                self.fds[fd] = dst
 
     def remove(self, path):
         if path not in self.files:
@@ -499,7 +496,7 @@ class FakeFS(object):
         data = bytes(data.tobytes() if hasattr(data, 'tobytes') else data)
         self.effect('write %d bytes' % len(data))
         self._yp()
-        f = self.files[self.fds[fd]]
+        f = self.fds[fd]
         if len(f) < offset:
             f.extend(b'\0' * (offset - len(f)))
         f[offset:offset + len(data)] = data
@@ -515,7 +512,7 @@ class FakeFS(object):
     def aio_read(self, fd, offset, size, callback):
         import gevent
         self._yp()
-        f = self.files[self.fds[fd]]
+        f = self.fds[fd]
         buf = bytes(f[offset:offset + size])
         gevent.get_hub().loop.run_callback(callback, buf, len(buf), 0)
 
